@@ -38,3 +38,12 @@ Example ex_doc_unmixed : all_unmixed ex_doc = true /\ map split_tm ex_doc <> ex_
   (exists rs, normalise ex_doc = Ok rs /\ length rs = 5%nat).
 Proof. split; [reflexivity|split; [discriminate|]]. vm_compute. eexists. split; reflexivity. Qed.
 Print Assumptions ex_doc_unmixed.
+
+(* the order in which the triples maps are written in the mapping file is surface syntax too: for every document with distinct triples map
+   identifiers the generation rules give the same statements for every permutation of its triples maps (`Proofs/DocOrderP.v`) *)
+From Coq Require Import Permutation.
+From Morph Require Import Model.Spec Proofs.DocOrderP.
+Theorem order_of_triples_maps_is_irrelevant : forall scfg fe tables d d', Permutation d d' -> NoDup (map t_id d) ->
+  forall x, In x (spec_lines scfg fe d tables) <-> In x (spec_lines scfg fe d' tables).
+Proof. exact document_order_irrelevant. Qed.
+Print Assumptions order_of_triples_maps_is_irrelevant.
